@@ -287,6 +287,62 @@ Theorem C03_dispatcher_step_moves :
   forall c t, CLDispConc.can_step c t = true -> CLDispConc.thr (CLDispConc.dcstep c t) t <> CLDispConc.thr c t.
 Proof. exact CLDispConc.can_step_moves. Qed.
 
+(* WHAT A WALK CALLS (CLDispWalk.v).  A ghost runs beside the machine (CLDispWalk.gstep reads the configuration and never
+   changes it: CLDispWalk.grun_machine) and projects the machine's steps onto the events of CLTrav: the head read of a walk
+   is tinit, its look at a node TVisit, its step to the next node TAdvance, a list section executed by ANY thread on the same
+   event TOther.  For EVERY set of thread programs and EVERY schedule: every walk that has ended called no callback twice
+   and called every callback whose node was in the event's list when the walk read head and was not removed before the
+   walk ended (walk_ok of the record (thread, event, content at the head read, removed meanwhile, visited)); and the
+   ghost's record of a walk in progress is the machine's own: the nodes the machine logged in dvis for this walk, on the
+   list the machine holds for the event *)
+From EV Require CLTrav CLDispWalk.
+
+Theorem C03_dispatcher_walks_visit_what_stayed :
+  forall prog sched,
+    (forall t, Forall CLDispConc.call_wf (prog t)) ->
+    let G := snd (CLDispWalk.grun (CLDispConc.dinit prog) CLDispWalk.ginit sched) in
+    Forall CLDispWalk.walk_ok (CLDispWalk.gdone G).
+Proof. exact CLDispWalk.dispatcher_walks_visit_what_stayed. Qed.
+Print Assumptions C03_dispatcher_walks_visit_what_stayed.
+
+Theorem C03_dispatcher_walk_record_is_the_machines :
+  forall prog sched t w,
+    (forall t, Forall CLDispConc.call_wf (prog t)) ->
+    let c := CLDispConc.dcrun (CLDispConc.dinit prog) sched in
+    let G := snd (CLDispWalk.grun (CLDispConc.dinit prog) CLDispWalk.ginit sched) in
+    CLDispWalk.gw G t = Some w ->
+    skipn (CLDispWalk.wbase w) (CLDispWalk.vis_by t (CLDispConc.dvis c)) = CLTrav.tvis (CLDispWalk.wst w) /\
+    CLTrav.tg (CLDispWalk.wst w) = CLDisp.dget (CLDispConc.dmap c) (CLDispWalk.we w).
+Proof. exact CLDispWalk.dispatcher_walk_record_is_the_machines. Qed.
+Print Assumptions C03_dispatcher_walk_record_is_the_machines.
+
+Theorem C03_dispatcher_ghost_does_not_steer_the_machine :
+  forall sched c G, fst (CLDispWalk.grun c G sched) = CLDispConc.dcrun c sched.
+Proof. exact CLDispWalk.grun_machine. Qed.
+
+(* what walk_ok says, spelled out *)
+Theorem C03_walk_ok_means :
+  forall t e ids0 gone vis,
+    CLDispWalk.walk_ok (t, e, ids0, gone, vis) <-> (NoDup vis /\ forall z, In z ids0 -> ~ In z gone -> In z vis).
+Proof. intros; reflexivity. Qed.
+
+(* non-vacuity: thread 0 registers three listeners for event 5 and walks; while it stands on the first node thread 1
+   removes the second and adds a fourth; the walk calls the first and the third (nodes 0 and 2), the record says so *)
+Example C03_dispatcher_walk_example :
+  let prog := fun t => match t with
+                       | 0 => [CLDispConc.KSec true (CLDisp.DAdd 5 (SBack 10 0%N)); CLDispConc.KSec true (CLDisp.DAdd 5 (SBack 11 0%N));
+                               CLDispConc.KSec true (CLDisp.DAdd 5 (SBack 12 0%N)); CLDispConc.KWalk 5]
+                       | 1 => [CLDispConc.KSec false (CLDisp.DOn 5 (SRemove (Some 1))); CLDispConc.KSec true (CLDisp.DAdd 5 (SBack 13 0%N))]
+                       | _ => []
+                       end in
+  let sched := repeat 0 21 ++ [0; 0; 0; 0; 0; 0; 0] ++ repeat 1 14 ++ repeat 0 30 in
+  let c := CLDispConc.dcrun (CLDispConc.dinit prog) sched in
+  let G := snd (CLDispWalk.grun (CLDispConc.dinit prog) CLDispWalk.ginit sched) in
+  CLDispConc.dvis c = [(0, 5, 0); (0, 5, 2)] /\
+  CLDispWalk.gdone G = [(0, 5, [0; 1; 2], [1], [0; 2])] /\
+  CLDispWalk.gids G 5 = [0; 2; 3].
+Proof. vm_compute. repeat split. Qed.
+
 Example C03_dispatcher_machine_example :
   let prog := fun t => match t with
                        | 0 => [CLDispConc.KSec true (CLDisp.DAdd 7 (SBack 1 0%N)); CLDispConc.KSec false (CLDisp.DOn 7 (SRemove (Some 0)))]
@@ -305,7 +361,7 @@ Example C03_dispatcher_machine_example :
   map (CLDispConc.thr c) [0; 1; 2; 3] = [(CLDispConc.Idle, []); (CLDispConc.Idle, []); (CLDispConc.Idle, []); (CLDispConc.Idle, [])] /\
   CLDisp.dget (CLDispConc.dmap c) 7 = fst (run_secs empty_group [SBack 1 1%N; SFront 2 2%N; SRemove (Some 0)]) /\
   CLDispConc.dmap c 4 = None /\
-  CLDispConc.dvis c = [(3, 7, 2)] /\ CLDispConc.dcnt c 7 = 2%N.
+  CLDispConc.dvis c = [(3, 7, 1)] /\ CLDispConc.dcnt c 7 = 2%N.
 Proof. exact CLDispConc.dispatcher_machine_example. Qed.
 
 (* non-vacuity: an interleaving in which thread 1 removes the node thread 0's traversal stands on *)
